@@ -47,12 +47,45 @@ fn has_huge_number(text: &[u8]) -> bool {
     false
 }
 
+fn invalid_utf8_only_in_bytes_targets(text: &[u8], bytes_at: u8) -> bool {
+    if bytes_at == 0 {
+        return false;
+    }
+    let Ok((root, _)) = refjson::parse(text) else { return false };
+    let mut spans: Vec<Span> = Vec::new();
+    match (bytes_at, &root.kind) {
+        (1, Kind::Str(_)) => spans.push(root.span),
+        (2, Kind::Arr(v)) => spans.extend(v.iter().filter(|n| matches!(n.kind, Kind::Str(_))).map(|n| n.span)),
+        (2, Kind::Obj(v)) => spans.extend(v.iter().filter(|(_, n)| matches!(n.kind, Kind::Str(_))).map(|(_, n)| n.span)),
+        (3, Kind::Arr(v)) => spans.extend(v.iter().enumerate().filter(|(i, n)| (*i == 0 || *i == 2) && matches!(n.kind, Kind::Str(_))).map(|(_, n)| n.span)),
+        _ => {}
+    }
+    // every byte of every invalid sequence must be inside one of the spans
+    let mut rest = text;
+    let mut base = 0usize;
+    loop {
+        match std::str::from_utf8(rest) {
+            Ok(_) => return true,
+            Err(e) => {
+                let at = base + e.valid_up_to();
+                let len = e.error_len().unwrap_or(rest.len() - e.valid_up_to());
+                if !spans.iter().any(|sp| sp.start < at && at + len < sp.end) {
+                    return false;
+                }
+                base = at + len;
+                rest = &text[base..];
+            }
+        }
+    }
+}
+
 fn compare<T: Fam>(text: &[u8]) -> Result<(), Fail> {
     let name = T::NAME;
-    // Texts that are not valid UTF-8 are outside this property's domain: C02 requires every
-    // entry point (including skipped / ignored content) to reject them, while serde_json does not
-    // validate the parts it skips or hands out as bytes.
-    if std::str::from_utf8(text).is_err() {
+    // Texts that are not valid UTF-8: C02 requires every entry point (including skipped / ignored
+    // content) to reject them, while serde_json does not validate the parts it skips. The two
+    // libraries are only comparable when every invalid byte lies inside a string literal that is
+    // deserialized into a byte buffer (both document that such literals need not be UTF-8).
+    if std::str::from_utf8(text).is_err() && !invalid_utf8_only_in_bytes_targets(text, T::BYTES_AT) {
         return Ok(());
     }
     let sj: Result<T, _> = serde_json::from_slice(text);
@@ -69,10 +102,10 @@ fn compare<T: Fam>(text: &[u8]) -> Result<(), Fail> {
         (Ok(a), Err(e)) => {
             // known finding F17: a byte-buffer target accepts unpaired surrogate escapes in
             // serde_json (they become 3-byte sequences), sonic-rs rejects them
-            if name == "ByteBuf" && matches!(refjson::scan(text, 0, &mut refjson::NoSink), Err(e) if e.reason == "raw control character in string") {
+            if T::BYTES_AT != 0 && matches!(refjson::scan(text, 0, &mut refjson::NoSink), Err(e) if e.reason == "raw control character in string") {
                 fail!("C04/bytes/raw-control-character", "ByteBuf: {:?} -> serde_json Ok({}), sonic-rs Err({})", show_bytes(text, 300), trunc(&format!("{a:?}"), 160), e.to_string().lines().next().unwrap_or(""));
             }
-            if name == "ByteBuf" && matches!(refjson::scan(text, 0, &mut refjson::NoSink), Ok(s) if !s.scalars_ok) {
+            if T::BYTES_AT != 0 && matches!(refjson::scan(text, 0, &mut refjson::NoSink), Ok(s) if !s.scalars_ok) {
                 fail!("C04/bytes/lone-surrogate", "ByteBuf: {:?} -> serde_json Ok({}), sonic-rs Err({})", show_bytes(text, 300), trunc(&format!("{a:?}"), 160), e.to_string().lines().next().unwrap_or(""));
             }
             ensure!(f32_slack, format!("C04/{name}/sonic-rejects"), "{name}: {:?} -> serde_json Ok({}), sonic-rs Err({})", show_bytes(text, 300), trunc(&format!("{a:?}"), 160), e.to_string().lines().next().unwrap_or(""));
@@ -155,7 +188,7 @@ pub fn damage(src: &mut Src, text: &[u8]) -> (Vec<u8>, &'static str) {
     let (mut scalars, mut keys, mut objs) = (Vec::new(), Vec::new(), Vec::new());
     collect(&root, &mut scalars, &mut keys, &mut objs);
     let mut out = text.to_vec();
-    let k = src.below(12);
+    let k = src.below(13);
     match k {
         0 => (out, "as-printed"),
         1 | 2 if !scalars.is_empty() => {
@@ -253,6 +286,37 @@ pub fn damage(src: &mut Src, text: &[u8]) -> (Vec<u8>, &'static str) {
             let cut = src.below(out.len() + 1);
             out.truncate(cut);
             (out, "truncated")
+        }
+        11 => {
+            // a string literal with raw (possibly non-UTF-8) bytes in place of an array or scalar
+            let mut spans = scalars.clone();
+            fn arrays(n: &Node, out: &mut Vec<Span>) {
+                match &n.kind {
+                    Kind::Arr(v) => {
+                        out.push(n.span);
+                        v.iter().for_each(|x| arrays(x, out));
+                    }
+                    Kind::Obj(v) => v.iter().for_each(|(_, x)| arrays(x, out)),
+                    _ => {}
+                }
+            }
+            arrays(&root, &mut spans);
+            if spans.is_empty() {
+                return (out, "as-printed");
+            }
+            let sp = spans[src.below(spans.len())];
+            let n = src.below(12);
+            let mut lit = vec![b'"'];
+            for _ in 0..n {
+                let b = *src.pick(&[b'a', b'z', 0xff, 0xfe, 0x80, 0xc3, 0xa9, 0xe4, 0xb8, 0xad, 0xf0, 0x9f, 0x20, 0x7f, 0xed, 0xa0]);
+                lit.push(b);
+            }
+            if src.chance(60) {
+                lit.extend_from_slice(*src.pick(&[&b"\\n"[..], b"\\u00e9", b"\\\"", b"\\\\", b"\\ud83d\\ude00"]));
+            }
+            lit.push(b'"');
+            out.splice(sp.start..sp.end, lit);
+            (out, "bytes-string")
         }
         10 => {
             let t = *src.pick(&[" ", "\n", " x", ",", "]", "}", " 1", "null", "\u{0}", "//c"]);
